@@ -51,7 +51,7 @@ func (r *Rng) Intn(n int) int {
 	}
 	return int(r.U64() % uint64(n))
 }
-func (r *Rng) Bool() bool          { return r.U64()&1 == 1 }
+func (r *Rng) Bool() bool            { return r.U64()&1 == 1 }
 func (r *Rng) Chance(p float64) bool { return float64(r.U64()%1000000)/1000000.0 < p }
 func (r *Rng) Pick(xs []string) string {
 	return xs[r.Intn(len(xs))]
@@ -111,6 +111,7 @@ type Sim struct {
 	Overrun  bool
 	seed     uint64
 	main     *Task
+	bg       int
 }
 
 func NewSim(seed uint64, policy int) *Sim {
@@ -123,6 +124,8 @@ func NewSim(seed uint64, policy int) *Sim {
 
 // NewTask creates a task whose delay stream depends only on (scheduler seed, stable id), so that
 // removing other tasks/ops while shrinking perturbs its own schedule as little as possible.
+//
+//go:norace
 func (s *Sim) NewTask(stableID int, name string) *Task {
 	t := &Task{ID: stableID, Name: name, rng: splitmix(s.seed ^ (uint64(stableID)+1)*0x9e3779b97f4a7c15), factor: 1}
 	if t.rng == 0 {
@@ -143,6 +146,12 @@ func (t *Task) next() uint64 {
 	t.rng ^= t.rng >> 27
 	return t.rng * 2685821657736338717
 }
+
+//go:norace
+func (s *Sim) isOn() bool { return s.On }
+
+//go:norace
+func (s *Sim) nextBg() int { s.bg++; return 5000 + s.bg }
 
 //go:norace
 func (s *Sim) Cur() *Task { return s.cur }
